@@ -54,6 +54,16 @@ fn parse_ifdata_from_spec(
 ) -> Option<GenericIfData> {
     let pos = parser.get_tokenpos();
     if let Ok(ifdata) = parse_ifdata_item(parser, context, spec) {
+        // comments between the last item and the /end of the IF_DATA block do not make the content invalid
+        while let Some(A2lToken {
+            ttype: A2lTokenType::Comment,
+            ..
+        }) = parser.peek_token()
+        {
+            if parser.get_token(context).is_err() {
+                break;
+            }
+        }
         if let Some(A2lToken {
             ttype: A2lTokenType::End,
             ..
